@@ -190,6 +190,10 @@ public:
 
   static constexpr bool sends_done = false;
 
+  // Whether a set_done completion of the source may be carried in the value
+  // channel; lets dematerialize() report an accurate sends_done.
+  static constexpr bool materializes_done = sender_traits<Source>::sends_done;
+
   static constexpr blocking_kind blocking = sender_traits<Source>::blocking;
 
   static constexpr bool is_always_scheduler_affine =
